@@ -3,6 +3,7 @@ package harness
 import (
 	"bytes"
 	"fmt"
+	"io"
 	"testing"
 
 	webtrans "github.com/zishang520/engine.io/v2/webtransport"
@@ -146,6 +147,11 @@ func TestC14Decoder(t *testing.T) {
 		server := rapid.Bool().Draw(rt, "server")
 		pipe := newHalfPipe()
 		pipe.frag = frag
+		// a conformant peer ends its stream after the last frame; the carrier may report the end with the last bytes
+		pipe.endWithData = rapid.Bool().Draw(rt, "endWithData")
+		if pipe.endWithData {
+			classes = append(classes, "end-reported-with-last-bytes")
+		}
 		pipe.Write(stream)
 		pipe.CloseWrite()
 		rc := webtrans.NewConn(nil, &memWTStream{in: pipe, out: newHalfPipe()}, server, rbs, 0, nil, nil, nil)
@@ -168,6 +174,9 @@ func TestC14Decoder(t *testing.T) {
 				nr, err := r.Read(buf)
 				data = append(data, buf[:nr]...)
 				if err != nil {
+					if err != io.EOF {
+						rt.Fatalf("frame %d of %v: a complete frame of a conformant stream ended with %v after %d of %d bytes (end of message expected)", i, desc, err, len(data), len(w.data))
+					}
 					break
 				}
 				if len(data) > len(w.data)+10 {
@@ -182,5 +191,5 @@ func TestC14Decoder(t *testing.T) {
 			rt.Fatalf("extra message after %v", desc)
 		}
 	})
-	col.RequireClasses(t, "nonminimal.form1", "nonminimal.form2", "zero-length")
+	col.RequireClasses(t, "nonminimal.form1", "nonminimal.form2", "zero-length", "end-reported-with-last-bytes")
 }
